@@ -3,6 +3,7 @@ package harness
 import (
 	"bytes"
 	"fmt"
+	"os"
 	"reflect"
 	"sort"
 	"strings"
@@ -97,8 +98,15 @@ func (w *world) parseCheck(h *recHandler, msg *service.Message) {
 		return
 	}
 	if !same(liveErr, flErr, h.JT808Handler, fl) {
+		if os.Getenv("VERIF_DEBUG") != "" {
+			fmt.Fprintf(os.Stderr, "C03 DEBUG id=%#04x liveErr=%v flErr=%v\n live=%s\n fresh=%s\n", id, liveErr, flErr, canon(reflect.ValueOf(h.JT808Handler)), canon(reflect.ValueOf(fl)))
+		}
+		field := "error"
+		if liveErr == nil && flErr == nil {
+			field = firstDiff(reflect.ValueOf(h.JT808Handler), reflect.ValueOf(fl), 0)
+		}
 		w.parseViol = append(w.parseViol, Violation{Prop: "C03", Rule: "C03.receiver_history",
-			Sig:  fmt.Sprintf("C03.receiver_history:%#04x", id),
+			Sig:  fmt.Sprintf("C03.receiver_history:%#04x:%s", id, field),
 			Msg:  fmt.Sprintf("a receiver of %#04x that parsed earlier bodies gives a different result than a fresh one for the same body (%x)", id, exactBody),
 			Step: simrt.Step()})
 		return
@@ -174,7 +182,17 @@ func canonInto(b *strings.Builder, v reflect.Value, depth int) {
 		keys := v.MapKeys()
 		ks := make([]string, len(keys))
 		for i, k := range keys {
-			ks[i] = fmt.Sprint(k.Interface())
+			// the key's numeric value, not its String(): distinct keys may print alike
+			switch {
+			case k.CanInt():
+				ks[i] = fmt.Sprintf("%020d", k.Int())
+			case k.CanUint():
+				ks[i] = fmt.Sprintf("%020d", k.Uint())
+			case k.Kind() == reflect.String:
+				ks[i] = k.String()
+			default:
+				ks[i] = fmt.Sprintf("%#v", k.Interface())
+			}
 		}
 		idx := make([]int, len(keys))
 		for i := range idx {
@@ -198,4 +216,40 @@ func canonInto(b *strings.Builder, v reflect.Value, depth int) {
 			fmt.Fprintf(b, "%v", v)
 		}
 	}
+}
+
+// firstDiff names the first exported field (up to three levels deep) whose canonical rendering differs.
+func firstDiff(a, b reflect.Value, depth int) string {
+	for a.IsValid() && (a.Kind() == reflect.Pointer || a.Kind() == reflect.Interface) && !a.IsNil() {
+		a = a.Elem()
+	}
+	for b.IsValid() && (b.Kind() == reflect.Pointer || b.Kind() == reflect.Interface) && !b.IsNil() {
+		b = b.Elem()
+	}
+	if !a.IsValid() || !b.IsValid() || a.Kind() != reflect.Struct || b.Kind() != reflect.Struct || a.Type() != b.Type() {
+		return "?"
+	}
+	t := a.Type()
+	for i := 0; i < a.NumField(); i++ {
+		f := t.Field(i)
+		if !f.IsExported() || f.Type.Kind() == reflect.Func {
+			continue
+		}
+		if canon(a.Field(i)) != canon(b.Field(i)) {
+			if depth < 1 && f.Anonymous {
+				fa, fb := a.Field(i), b.Field(i)
+				for fa.Kind() == reflect.Pointer && !fa.IsNil() {
+					fa = fa.Elem()
+				}
+				for fb.Kind() == reflect.Pointer && !fb.IsNil() {
+					fb = fb.Elem()
+				}
+				if fa.Kind() == reflect.Struct && fb.Kind() == reflect.Struct && fa.Type() == fb.Type() {
+					return f.Name + "." + firstDiff(fa, fb, depth+1)
+				}
+			}
+			return f.Name
+		}
+	}
+	return "?"
 }
